@@ -37,11 +37,19 @@ structure Grows (w w' : World) : Prop where
 structure SameFiles (w w' : World) : Prop where
   nfiles : w'.nfiles = w.nfiles
   content : ∀ fid, (w'.files fid).content = (w.files fid).content
+  /-- a file's name count (and the ghost of its owning chunk) stays, or the name goes away -/
+  own : ∀ fid, ((w'.files fid).nlink = (w.files fid).nlink ∧ (w'.files fid).tl = (w.files fid).tl) ∨
+    (w'.files fid).nlink < (w.files fid).nlink
 
-theorem SameFiles.refl (w : World) : SameFiles w w := ⟨rfl, fun _ => rfl⟩
+theorem SameFiles.refl (w : World) : SameFiles w w := ⟨rfl, fun _ => rfl, fun _ => Or.inl ⟨rfl, rfl⟩⟩
 
-theorem SameFiles.trans {a b c : World} (h1 : SameFiles a b) (h2 : SameFiles b c) : SameFiles a c :=
-  ⟨h2.nfiles.trans h1.nfiles, fun fid => (h2.content fid).trans (h1.content fid)⟩
+theorem SameFiles.trans {a b c : World} (h1 : SameFiles a b) (h2 : SameFiles b c) : SameFiles a c := by
+  refine ⟨h2.nfiles.trans h1.nfiles, fun fid => (h2.content fid).trans (h1.content fid), fun fid => ?_⟩
+  rcases h1.own fid with ⟨a1, a2⟩ | a1 <;> rcases h2.own fid with ⟨b1, b2⟩ | b1
+  · exact Or.inl ⟨b1.trans a1, b2.trans a2⟩
+  · exact Or.inr (by omega)
+  · exact Or.inr (by omega)
+  · exact Or.inr (by omega)
 
 theorem SameFiles.sz {w w' : World} (h : SameFiles w w') (fid : Nat) : sz w' fid = sz w fid := by
   simp [Cq.sz, h.content fid]
@@ -156,29 +164,33 @@ theorem setFile_files_other (w : World) {fid i : Nat} (f : File) (h : i ≠ fid)
     (w.setFile fid f).files i = w.files i := by
   simp [World.setFile, h]
 
-theorem setFile_sameFiles (w : World) (fid : Nat) (f : File) (h : f.content = (w.files fid).content) :
+theorem setFile_sameFiles (w : World) (fid : Nat) (f : File) (h : f.content = (w.files fid).content)
+    (ho : (f.nlink = (w.files fid).nlink ∧ f.tl = (w.files fid).tl) ∨ f.nlink < (w.files fid).nlink) :
     SameFiles w (w.setFile fid f) := by
-  refine ⟨rfl, fun i => ?_⟩
-  by_cases hi : i = fid
-  · subst hi; simp [h]
-  · rw [setFile_files_other w f hi]
+  refine ⟨rfl, fun i => ?_, fun i => ?_⟩
+  · by_cases hi : i = fid
+    · subst hi; simp [h]
+    · rw [setFile_files_other w f hi]
+  · by_cases hi : i = fid
+    · subst hi; simpa using ho
+    · rw [setFile_files_other w f hi]; exact Or.inl ⟨rfl, rfl⟩
 
 theorem openFd_same (w : World) (fid : Nat) : SameFiles w (w.openFd fid) :=
-  setFile_sameFiles w fid _ rfl
+  setFile_sameFiles w fid _ rfl (Or.inl ⟨rfl, rfl⟩)
 
 theorem closeFd_same (w : World) (fid : Nat) : SameFiles w (w.closeFd fid) :=
-  setFile_sameFiles w fid _ rfl
+  setFile_sameFiles w fid _ rfl (Or.inl ⟨rfl, rfl⟩)
 
-theorem unlink_same (w : World) (fid : Nat) : SameFiles w (w.unlink fid) :=
-  setFile_sameFiles w fid _ rfl
+theorem unlink_same (w : World) (fid len : Nat) : SameFiles w (w.unlink fid len) :=
+  setFile_sameFiles w fid _ rfl (Or.inr (by simp only; omega))
 
 theorem pushOversized_same (w : World) (n : Nat) : SameFiles w (pushOversized w n) := by
   unfold pushOversized
   split
-  · exact ⟨rfl, fun _ => rfl⟩
+  · exact ⟨rfl, fun _ => rfl, fun _ => Or.inl ⟨rfl, rfl⟩⟩
   · split
     · split
-      · exact ⟨rfl, fun _ => rfl⟩
+      · exact ⟨rfl, fun _ => rfl, fun _ => Or.inl ⟨rfl, rfl⟩⟩
       · exact SameFiles.refl w
     · exact SameFiles.refl w
 
@@ -189,7 +201,7 @@ theorem acquire_same (w : World) (n : Nat) : SameFiles w (acquire w n).1 := by
   · split
     · dsimp only
       split
-      · exact ⟨rfl, fun _ => rfl⟩
+      · exact ⟨rfl, fun _ => rfl, fun _ => Or.inl ⟨rfl, rfl⟩⟩
       · exact SameFiles.refl w
     · exact SameFiles.refl w
 
@@ -204,9 +216,9 @@ theorem release_same (w : World) (c : Chunk) : SameFiles w (release w c) := by
       · exact SameFiles.refl w
   | file fid off len t fd =>
     simp only [release]
-    have h1 : SameFiles w (if t = true then w.unlink fid else w) := by
+    have h1 : SameFiles w (if t = true then w.unlink fid len else w) := by
       split
-      · exact unlink_same w fid
+      · exact unlink_same w fid len
       · exact SameFiles.refl w
     split
     · exact h1.trans (closeFd_same _ fid)
@@ -218,10 +230,10 @@ theorem releaseAll_same (w : World) (cs : List Chunk) : SameFiles w (releaseAll 
   | cons c cs ih => exact (release_same w c).trans (ih _)
 
 theorem popM_same (w : World) : SameFiles w (popM w).1 := by
-  unfold popM; split <;> exact ⟨rfl, fun _ => rfl⟩
+  unfold popM; split <;> exact ⟨rfl, fun _ => rfl, fun _ => Or.inl ⟨rfl, rfl⟩⟩
 
 theorem popW_same (w : World) : SameFiles w (popW w).1 := by
-  unfold popW; split <;> exact ⟨rfl, fun _ => rfl⟩
+  unfold popW; split <;> exact ⟨rfl, fun _ => rfl, fun _ => Or.inl ⟨rfl, rfl⟩⟩
 
 /-! ## append family -/
 
@@ -1579,6 +1591,17 @@ theorem pwrite_fresh {w : World} {fid : Nat} (pos : Nat) (d : Bytes) (hf : Fresh
   rw [sz_pwrite_other w pos d (by omega)]
   exact hf i hle'
 
+theorem sz_addTl (w : World) (fid : Nat) (n : Int) (i : Nat) : sz (w.addTl fid n) i = sz w i := by
+  by_cases hi : i = fid
+  · subst hi; simp [sz, World.addTl]
+  · simp [sz, World.addTl, setFile_files_other w _ hi]
+
+theorem addTl_grows (w : World) (fid : Nat) (n : Int) : Grows w (w.addTl fid n) :=
+  ⟨Nat.le_refl _, fun i => by rw [sz_addTl]; exact Nat.le_refl _⟩
+
+theorem addTl_fresh {w : World} (fid : Nat) (n : Int) (hf : Fresh w) : Fresh (w.addTl fid n) :=
+  fun i hle => by rw [sz_addTl]; exact hf i hle
+
 /-- the pair writeLast/growLast: `d` is appended to the file of the last chunk
     and the chunk grows by the same amount -/
 theorem writeGrow_spec (w : World) (q : Cq) (d : Bytes) :
@@ -1589,14 +1612,14 @@ theorem writeGrow_spec (w : World) (q : Cq) (d : Bytes) :
   · rename_i fid off len t fd hl
     have hv := valid_last hq.valid hl
     simp only [Chunk.Valid] at hv
-    have hg := pwrite_grows w fid len d
-    refine ⟨pwrite_fresh len d hf hv.1, hg, ?_⟩
+    have hg := (pwrite_grows w fid len d).trans (addTl_grows _ fid (if t = true then (d.length : Int) else 0))
+    refine ⟨addTl_fresh fid _ (pwrite_fresh len d hf hv.1), hg, ?_⟩
     have hr := remSum_last hl
     have hlen := hq.len
     refine ⟨valid_setLast (hq.valid.mono hg) ?_, ?_⟩
     · simp only [Chunk.Valid]
       refine ⟨hv.1, by omega, ?_⟩
-      rw [sz_pwrite_same, writeAt_length]
+      rw [sz_addTl, sz_pwrite_same, writeAt_length]
       have := hv.2.2
       simp only [sz] at this
       omega
